@@ -839,7 +839,7 @@ class UnitBuilder:
                                 mm = re.match(r'(sigsub|bodysub)\s+"(.*)"\s+=>\s+"(.*)"\s*$', d2)
                                 if not mm:
                                     raise BuildError('%s:%d bad sub directive' % (tname2, L2))
-                                opts[mm.group(1)].append((mm.group(2), mm.group(3)))
+                                opts[mm.group(1)].append((mm.group(2).replace('\\"', '"'), mm.group(3).replace('\\"', '"')))   # \" inside a part stands for a quote
                                 cur = None
                             elif d2.startswith('armsub '):
                                 mm = re.match(r'armsub\s+(.*?)\s*\|\s*(.*?)\s*=>\s*(.*)$', d2)
